@@ -112,6 +112,35 @@ def random_pairs(r, n, maxlen):
     return out
 
 
+def long_pairs(r, n):
+    """Long strings (33-64 characters) whose common subsequences lie far from the main diagonal: a short block moved from one
+    end to the other of an otherwise rewritten string, rotations, a common block in the middle of different lengths."""
+    out = []
+    for _ in range(n):
+        la, lb = r.randint(33, 64), r.randint(33, 64)
+        block = [r.choice((120, 121, 122, 69, 82)) for _ in range(r.randint(1, 6))]
+        xa = [r.choice((97, 98, 99)) for _ in range(la - len(block))]
+        xb = [r.choice((48, 49, 50, 45)) for _ in range(lb - len(block))]
+        c = r.random()
+        if c < 0.4:
+            a, b = block + xa, xb + block                       # the block moves from the start to the end
+        elif c < 0.6:
+            a, b = xa + block, block + xb
+        elif c < 0.75:
+            k = r.randint(1, len(xa) - 1)
+            a, b = xa[:k] + block + xa[k:], block + xb          # middle -> start
+        elif c < 0.9:
+            k = r.randint(1, la - 1)
+            a = block + xa
+            b = a[k:] + a[:k]                                   # rotation
+        else:
+            a, b = block + xa, (xb + block)[::-1]
+        if r.random() < 0.3:
+            a, b = b, a
+        out.append((a, b))
+    return out
+
+
 def run():
     chk = Check("C11", "model_checking")
     t = tier()
@@ -136,6 +165,7 @@ def run():
     chk.exhaustive = True
     chk.extra["exhaustive_pairs"] = len(pairs)
     pairs += [(a, b, "random") for a, b in random_pairs(rng("c11"), n_rand, rand_len)]
+    pairs += [(a, b, "long") for a, b in long_pairs(rng("c11-long"), 80 if t == "quick" else 600)]
     jobs = []
     for k, (a, b, origin) in enumerate(pairs):
         jobs.append((a, b, "node" if k % 3 else "function"))
@@ -171,7 +201,8 @@ def run():
     chk.sample({"a": "".join(map(chr, traces[mid]["a"])), "b": "".join(map(chr, traces[mid]["b"])), "script": traces[mid]["ev"]})
     chk.sample({"a": "".join(map(chr, traces[-1]["a"])), "b": "".join(map(chr, traces[-1]["b"])), "script": traces[-1]["ev"][:30]})
     chk.rule = ("cases = all pairs of strings over {a,b} up to length %d and over {a,b,c} up to length %d (enumerated by "
-                "TLC), plus random pairs up to length %d (tiny and large alphabets, mutated copies, shared prefix/suffix, "
+                "TLC), plus long pairs (33-64 characters: a short common block moved across an otherwise rewritten string, rotations) and "
+                "random pairs up to length %d (tiny and large alphabets, mutated copies, shared prefix/suffix, "
                 "reversals, repeats, non-ASCII); each diffed through StringNode.edits (2/3) or string_edit_distance (1/3); "
                 "distinct by (a, b, entry point); non-trivial = both non-empty and different" % (bin_len, tern_len, rand_len))
     chk.assumptions = ["characters are mapped to script positions by node identity in the per-character lists",
